@@ -154,8 +154,24 @@ func c09Run(c *fw.Ctx, idx int) {
 		c.Sample(g.String())
 	}
 
+	if r.Chance(1, 40) {
+		c09RefusedCalls(c, layout)
+	}
 	if !c09Judge(c, t, m, g, kind, "") {
 		return
+	}
+	// a clone measures the same (judged on its own)
+	if r.Chance(1, 4) {
+		var cl geom.T
+		if c.Guard("panic", func() { cl = cloneGeom(t) }) {
+			return
+		}
+		if cm, ok := cl.(measurer); ok && cl != nil {
+			c.Count("clones_measured")
+			if !c09Judge(c, cl, cm, g, kind, " of a clone") {
+				return
+			}
+		}
 	}
 	// measure -> change in place -> measure again: the second answer must be the
 	// measure of the geometry as it is now, not of what it was
@@ -356,6 +372,69 @@ func c09Huge(c *fw.Ctx, idx int) {
 	c.Count("huge_part_" + kind.String())
 	c.Distinct(fmt.Sprintf("huge/%s/%d/%d", kind, pos, nbig))
 	c09Judge(c, t, m, g, kind, "")
+}
+
+func cloneGeom(t geom.T) geom.T {
+	switch x := t.(type) {
+	case *geom.Point:
+		return x.Clone()
+	case *geom.LineString:
+		return x.Clone()
+	case *geom.LinearRing:
+		return x.Clone()
+	case *geom.Polygon:
+		return x.Clone()
+	case *geom.MultiPoint:
+		return x.Clone()
+	case *geom.MultiLineString:
+		return x.Clone()
+	case *geom.MultiPolygon:
+		return x.Clone()
+	}
+	return nil
+}
+
+// c09RefusedCalls measures geometries that are not well formed (an end offset
+// beyond the coordinates, ends that decrease, a flat array cut short): as the
+// code stands Area and Length panic on them part-way; the caller recovers.
+// Nothing is judged here - the measurement judged next must not see what such
+// a call left behind.
+func c09RefusedCalls(c *fw.Ctx, layout geom.Layout) {
+	st := layout.Stride()
+	if st < 2 {
+		return
+	}
+	sq := make([]float64, 0, 5*st)
+	for _, p := range [][2]float64{{0, 0}, {3, 0}, {3, 2}, {0, 2}, {0, 0}} {
+		co := make([]float64, st)
+		co[0], co[1] = p[0], p[1]
+		sq = append(sq, co...)
+	}
+	try := func(f func()) {
+		defer func() {
+			if recover() != nil {
+				c.Count("refused_measurements_that_panicked")
+			}
+		}()
+		f()
+	}
+	two := append(append([]float64{}, sq...), sq...)
+	for _, g := range []interface {
+		Area() float64
+		Length() float64
+	}{
+		geom.NewPolygonFlat(layout, two, []int{len(sq), len(sq) - st, len(two)}),
+		geom.NewMultiPolygonFlat(layout, two, [][]int{{len(sq)}, {len(two) + 2*st}}),
+		geom.NewMultiPolygonFlat(layout, two[:len(two)-1], [][]int{{len(sq)}, {len(two)}}),
+		geom.NewLineStringFlat(layout, two[:len(two)-1]),
+		// last: the ones that fail after a first ring or line has been measured
+		geom.NewMultiLineStringFlat(layout, two, []int{len(sq), len(two) + st}),
+		geom.NewPolygonFlat(layout, two, []int{len(sq), len(two) + 4*st}),
+	} {
+		try(func() { g.Area() })
+		try(func() { g.Length() })
+	}
+	c.Count("refused_measurements_before_a_judged_one")
 }
 
 // c09InjectBad gives the first coordinate of g one ordinate too many.
